@@ -158,10 +158,14 @@ class Run:
         if self.config not in (None, "prince", "planted"):
             self.notes.append("%s [%s] %s: %d (floor %d applies to the prince configuration)" % (rule, self.config, what, got, floor))
             return
-        if got < floor:
-            self.fail(rule, "FLOOR:" + what, "rule matched %d instance(s) of %s, fewer than the %d confirmed by hand (fail closed)" % (got, what, floor))
+        # A floor guards against a rule that silently stops matching (extraction failure, renamed anchor): that shows as a collapse of
+        # the count, not as the loss of a few sites. Behaviour-preserving edits do remove sites (`a - b` under a test rewritten as
+        # `checked_sub`, two calls merged into one), so counts of 8 and more tolerate a 10 % drop; small counts are exact.
+        eff = floor if floor < 8 else (floor * 9) // 10
+        if got < eff:
+            self.fail(rule, "FLOOR:" + what, "rule matched %d instance(s) of %s, fewer than the %d confirmed by hand (tolerance to %d; fail closed)" % (got, what, floor, eff))
         else:
-            self.notes.append("%s floor %s: %d >= %d" % (rule, what, got, floor))
+            self.notes.append("%s floor %s: %d >= %d (confirmed %d)" % (rule, what, got, eff, floor))
 
     # ---- output ----
     def finish(self):
